@@ -468,12 +468,22 @@ pub struct Handle {
     shared: Arc<ArcSwap<SharedLogger>>,
 }
 
+// Reconfigurations are serialised: the facade's maximum level and the logger snapshot are two
+// separate writes, and of two concurrent calls one could otherwise leave its level behind with
+// the other one's configuration.
+static RECONFIGURE: std::sync::Mutex<()> = std::sync::Mutex::new(());
+
 impl Handle {
     /// Sets the logging configuration.
     pub fn set_config(&self, config: Config) {
-        let shared = SharedLogger::new(config);
-        log::set_max_level(shared.root.max_log_level());
-        self.shared.store(Arc::new(shared));
+        let shared = Arc::new(SharedLogger::new(config));
+        let previous = {
+            let _guard = RECONFIGURE.lock().unwrap_or_else(|e| e.into_inner());
+            log::set_max_level(shared.root.max_log_level());
+            self.shared.swap(shared)
+        };
+        // the replaced configuration goes away outside the lock
+        drop(previous);
     }
 }
 
